@@ -1118,8 +1118,9 @@ class PDSLabelEncoder(ODLEncoder):
                         ):
                             return False
 
-        # Item 2, no repeated keys:
-        keys = list(group.keys())
+        # Item 2, no repeated keys.  Keywords are written in upper case,
+        # so keys that differ only in case are repeated keys, too.
+        keys = [str(k).upper() for k in group.keys()]
         if len(keys) != len(set(keys)):
             return False
 
